@@ -12,9 +12,27 @@ import (
 
 	"net/http/httptest"
 
+	"github.com/mimiro-io/datahub/internal/jobs"
+	"github.com/mimiro-io/datahub/internal/jobs/source"
 	"github.com/mimiro-io/datahub/internal/server"
 	"github.com/mimiro-io/datahub/internal/web"
 )
+
+// one HTTPDatasetSource per store object, kept across the reads of a case
+var srcOf = map[*server.Store]*source.VerifC13Source{}
+
+func srcRead(store *server.Store, locals map[string]string, key string) (string, string, error) {
+	v, ok := srcOf[store]
+	if !ok {
+		for s, old := range srcOf {
+			old.Close()
+			delete(srcOf, s)
+		}
+		v = source.VerifC13NewSource(store)
+		srcOf[store] = v
+	}
+	return v.Read(locals, key)
+}
 
 // requests through the real handlers of internal/web (package server cannot import package web)
 func httpGet(store *server.Store, dsm *server.DsManager, path, accept string) (int, []byte) {
@@ -30,6 +48,8 @@ func httpGet(store *server.Store, dsm *server.DsManager, path, accept string) (i
 
 func main() {
 	server.VerifC13HTTPGet = httpGet
+	server.VerifC13TCompact = jobs.VerifC13HttpTransform
+	server.VerifC13SrcRead = srcRead
 	dir := os.Args[1]
 	if len(os.Args) > 2 && os.Args[2] == "conc" {
 		var c server.VerifC13Case
